@@ -572,6 +572,11 @@ class Sim:
 
     # ---------------------------------------------------------------- signals
     def kill(self, pid, sig, sender="env", sender_proc=None):
+        if pid == 0 and sender_proc is not None:
+            # the caller's own process group: the existence probe always succeeds (the caller is a member)
+            if sig == 0:
+                return
+            raise NotImplementedError("kill(0, %d): process groups are not modelled" % sig)
         p = self.procs.get(pid)
         if p is None or p.state == "gone":
             raise ProcessLookupError(errno.ESRCH, "No such process")
